@@ -12,6 +12,8 @@ pub struct UnmarshalContext<'fds, 'buf> {
     pub byteorder: ByteOrder,
     fds: &'fds [crate::wire::UnixFd],
     cursor: Cursor<'buf>,
+    /// How many containers the values read from this context are nested in
+    depth: usize,
 }
 
 impl<'fds, 'buf> UnmarshalContext<'fds, 'buf> {
@@ -25,7 +27,27 @@ impl<'fds, 'buf> UnmarshalContext<'fds, 'buf> {
             fds,
             byteorder,
             cursor: Cursor { buf, offset },
+            depth: 0,
         }
+    }
+
+    /// Call before unmarshalling the contents of a container, and leave_container() afterwards.
+    /// Fails if the containers are nested deeper than the protocol allows.
+    pub fn enter_container(&mut self) -> UnmarshalResult<()> {
+        if self.depth >= crate::wire::validate_raw::MAX_NESTING_DEPTH {
+            return Err(crate::signature::Error::NestingTooDeep.into());
+        }
+        self.depth += 1;
+        Ok(())
+    }
+
+    pub fn leave_container(&mut self) {
+        self.depth = self.depth.saturating_sub(1);
+    }
+
+    /// How many containers the values read from this context are nested in
+    pub fn depth(&self) -> usize {
+        self.depth
     }
 
     /// Creates a context that can only see the next `length` bytes. The offset of the new context
@@ -34,12 +56,9 @@ impl<'fds, 'buf> UnmarshalContext<'fds, 'buf> {
         let start = self.cursor.offset;
         self.read_raw(length)?;
         let region = &self.cursor.buf[..start + length];
-        Ok(UnmarshalContext::new(
-            self.fds,
-            self.byteorder,
-            region,
-            start,
-        ))
+        let mut sub = UnmarshalContext::new(self.fds, self.byteorder, region, start);
+        sub.depth = self.depth;
+        Ok(sub)
     }
 
     /// The whole buffer this context reads from and the current offset into it
